@@ -6,6 +6,7 @@ import AvoVerif.Props.C10Accept
 import AvoVerif.Props.C10Compose
 import AvoVerif.Props.C10Pruned
 import AvoVerif.Props.C10General
+import AvoVerif.Props.C10Moves
 #print axioms Avo.Cleanup.prune_selfmov_ok
 #print axioms Avo.Cleanup.selfMove_kind
 #print axioms Avo.Cleanup.movl_self_has_effect
@@ -59,3 +60,21 @@ import AvoVerif.Props.C10General
 #print axioms Avo.Cleanup.pruned_halt
 #print axioms Avo.Cleanup.pruned_halts_partial
 #print axioms Avo.Cleanup.accepted_halts_partial
+#print axioms Avo.Cleanup.execMov_noopKind
+#print axioms Avo.Cleanup.execMovMasked_noop
+#print axioms Avo.Cleanup.selfMove_noop_iff
+#print axioms Avo.Cleanup.maskedSelfMove_noop_iff
+#print axioms Avo.Cleanup.noEffectMove_iff
+#print axioms Avo.Cleanup.vex256_self_has_effect
+#print axioms Avo.Cleanup.vex128_self_has_effect
+#print axioms Avo.Cleanup.vex_self_judgement
+#print axioms Avo.Cleanup.vex512_self_noop
+#print axioms Avo.Cleanup.sse_self_noop
+#print axioms Avo.Cleanup.vmovq_self_has_effect
+#print axioms Avo.Cleanup.kmov_self_judgement
+#print axioms Avo.Cleanup.masked_self_judgement
+#print axioms Avo.Cleanup.pruned_moves_are_noops
+#print axioms Avo.Cleanup.pruned_moves_no_effect
+#print axioms Avo.Cleanup.selfmove_sweep_ran
+#print axioms Avo.Cleanup.movesem_matches_cpu
+#print axioms Avo.Cleanup.movesem_cpu_rows
